@@ -109,6 +109,20 @@ def luba_tx_frame(frame_bytes, sendtwice, priority):
     return [LUBA_START] + body + [xor_all(body)]
 
 
+def luba_priority(kind, twice, answer):
+    """Priority field the LUBA driver documents ('standard commands and DAPC are high priority,
+    others are low', following the IEC 62386-101 frame priorities: 2 for instructions a user is
+    waiting for, 5 for queries and configuration): arguments are the IEC table row's kind,
+    send-twice flag and answer kind - not the library's class flags.  None = not asserted."""
+    if kind == "dapc":
+        return 2
+    if kind == "std":
+        if twice is None:
+            return None
+        return 2 if (not twice and answer is None) else 5
+    return 5
+
+
 # ----------------------------------------------------------------------------------------------
 # Lunatone SCI RS232: five bytes  control/status  hi  mi  lo  checksum(XOR of the four)
 # status byte: bits 7..4 device id, bits 3..0 code
